@@ -864,6 +864,9 @@ fn c05(ctx: &BoardCtx, p: &Pos, fen: &str, b: &mut Bitboard) {
         if !ref_legal.is_empty() && ref_legal.iter().all(|m| m.piece == PAWN && (m.from as i32 - m.to as i32).abs() == 16) {
             *local.entry("states_whose_only_legal_moves_are_double_pawn_steps").or_insert(0) += 1;
         }
+        if ref_legal.is_empty() && !p.in_check(p.stm) && p.pseudo_legal().iter().any(|m| m.is_ep) {
+            *local.entry("stalemates_with_a_pseudo_legal_en_passant_capture").or_insert(0) += 1;
+        }
         if !ref_legal.is_empty() && ref_legal.iter().all(|m| m.is_ep) {
             *local.entry("states_whose_only_legal_moves_are_en_passant_captures").or_insert(0) += 1;
         }
